@@ -83,7 +83,15 @@ def gen_pair_case(rng):
         if rng.random() < 0.5:
             goals.append({"path": rng.random() < 0.5, "fn": rng.choice(gp.FUNCS), "prio": pr, "k": rng.randrange(n),
                           "order": 2, "weight": 1, "nominal": rng.choice([1, 4])})
-    return {"k": "pair", "times": list(range(n)), "E": E, "p": [0, "1/2"][:E], "variant": "multi", "goals": goals, "options": {}}
+        if rng.random() < 0.5:
+            # an order-1 minimisation goal with a constant term in its function
+            goals.append({"path": rng.random() < 0.5, "fn": rng.choice(["y", "z"]), "prio": pr, "k": rng.randrange(n),
+                          "order": 1, "weight": 1, "nominal": 1, "offset": rng.choice(["1/2", "-3/2", "2"])})
+    c = {"k": "pair", "times": list(range(n)), "E": E, "p": [0, "1/2"][:E], "variant": "multi", "goals": goals, "options": {}}
+    if rng.random() < 0.4:
+        # the slack given to a finished priority may depend on which priority it is
+        c["options_by_priority"] = {"1": {"constraint_relaxation": rng.choice(["1/8", "1/2"])}}
+    return c
 
 
 def qp_case(c):
@@ -131,7 +139,7 @@ def in_child(fn, timeout=90):
     return kind, val
 
 
-def close_lists(a, b, tol=1e-5):
+def close_lists(a, b, tol=1e-4):
     return a is not None and b is not None and len(a) == len(b) and all(abs(x - y) <= tol * (1 + abs(x)) for x, y in zip(a, b))
 
 
@@ -188,11 +196,20 @@ def run(ctx):
         cases = [json.load(open(replay))["replay"]["case"]]
     else:
         cases = [c["case"] for c in core.corpus_cases(ID)] + [gen_pair_case(ctx.rng) for _ in range(ctx.n(7, 300))]
+        # a finished priority that is given slack, and a later priority that uses it
+        for fn, tmin in (("y", 11.0), ("z", 21.0)):
+            cases.append({"k": "pair", "times": [0, 1, 2], "E": 1, "p": [0], "variant": "multi", "options": {},
+                          "options_by_priority": {"1": {"constraint_relaxation": ctx.rng.choice(["1/8", "1/4"])}},
+                          "goals": [{"path": True, "fn": fn, "prio": 1, "k": 0, "order": 1, "weight": 1, "nominal": 1, "tmin": tmin},
+                                    {"path": True, "fn": fn, "prio": 2, "k": 0, "order": ctx.rng.choice([1, 2]), "weight": 1, "nominal": 1,
+                                     "offset": str(ctx.rng.choice([12, 25]))}]})
     from rtctools.optimization.single_pass_goal_programming_mixin import CachingQPSol
 
     for c in cases:
         kinds = ctx.rng.sample(["single_vs_keep_soft", "caching_qp", "twice", "expand", "map_mode"], ctx.n(2, 5)) if not replay else \
             ["single_vs_keep_soft", "caching_qp", "twice", "expand", "map_mode"]
+        if c.get("options_by_priority") and "single_vs_keep_soft" not in kinds:
+            kinds = ["single_vs_keep_soft"] + kinds[:1]
         for kind in kinds:
             pairs = []
             try:
@@ -470,7 +487,7 @@ def further_pairs(ctx):
             continue
         names = {"vector": ("one vector goal", "its scalar goals"), "minabs": ("MinAbsGoal", "explicit two-sided formulation")}[kind]
         # run_gp records through a child: objectives are in the returned dict of the child copy
-        if not close_lists(a["objectives"], b["objectives"], 1e-5):
+        if not close_lists(a["objectives"], b["objectives"], 1e-4):
             ctx.violation("pair/" + kind, rep, what="%s and %s give different optimal values per priority: %s vs %s" % (names[0], names[1], a["objectives"], b["objectives"]))
         elif len(ctx.samples) < 4:
             ctx.sample({"pair": kind, "case": desc, "objective_values": a["objectives"]})
